@@ -650,10 +650,10 @@ def selftest(rep):
 
 def run_property(rep, pid):
     quick = rep.tier == "quick"
-    L = 3 if quick else 4
-    rep.bounds.append(f"citation lists of length L = {L} over the kinds {KINDS}; volumes/reporters/pages/party names/antecedents/pin cites symbolic (pages and pin cites unbounded integers); every prefix resolved as well")
+    L = 3
+    rep.bounds.append(f"citation lists of length L = {L} over the kinds {KINDS}; volumes/reporters/pages/party names/antecedents/pin cites symbolic (pages and pin cites unbounded integers); every prefix resolved as well" + ("" if quick else "; optional (absent) party names and reference-citation name fields included"))
     rep.outside += [
-        f"lists longer than {L}; party names containing punctuation (strip_punct is taken as the identity); metadata values other than party names coinciding with a reference citation's name; edition_guess-based reporter normalisation (covered by C16)",
+        f"lists longer than {L} (thorough: than 4 over the reduced alphabet named below); party names containing punctuation (strip_punct is taken as the identity); metadata values other than party names coinciding with a reference citation's name; edition_guess-based reporter normalisation (covered by C16)",
         "custom resolver callbacks",
     ]
     rep.stubs += [
@@ -664,6 +664,22 @@ def run_property(rep, pid):
     params = {"L": L, "optional_parties": not quick, "ref_fields": not quick, "history": pid == "C06"}
     agg = common.explore_split("vf.harness.c06", params, depth=3 if quick else 4, timeout=6 * 3600)
     rep.merge_explore("resolve", agg)
+    if not quick:
+        # all 9 kinds at length 4 are 1.7 million paths (67 minutes on 16 cores, measured) for each of the three
+        # properties sharing this harness; the thorough tier takes length 4 over the kinds each property is about
+        ks = {
+            "C06": ["full_case", "full_case_placeholder", "full_journal", "full_law", "id", "unknown"],
+            "C07": ["full_case", "full_case_placeholder", "short", "supra", "ref", "id"],
+            "C08": ["full_case", "full_journal", "short", "supra", "id"],
+        }[pid]
+        rep.bounds.append(f"plus every 4-citation list over {ks}")
+        aggx = common.explore_split("vf.harness.c06", dict(params, L=4, kinds=ks, optional_parties=False, ref_fields=False), depth=4, timeout=4 * 3600)
+        rep.merge_explore("resolve_4", aggx)
+        for k, v in aggx["verdicts"].items():
+            agg["verdicts"][k] = agg["verdicts"].get(k, 0) + v
+        agg["findings"] = agg["findings"] + aggx["findings"]
+        agg["paths"] += aggx["paths"]
+        agg["errors"] = agg["errors"] + aggx["errors"]
     if quick and pid in ("C07", "C08"):
         # slices of the next length: 4 citations over {full case, one reference kind} - repeated references to
         # colliding cases need two full citations and two references
@@ -735,7 +751,7 @@ def run_property(rep, pid):
     selftest(rep)
     titles = {"C06": "the mapping's values are disjoint ordered sub-sequences led by a full citation and two full citations share a resource iff they are equal", "C07": "every non-full citation is attached to a resource only when the reference model's set of admissible resources is that singleton, id. only to its predecessor within the page window", "C08": "resolving every prefix gives the restriction of the whole resolution and no citation joins a resource introduced later"}
     return rep.finish(
-        explanation=f"Path-exhaustive symbolic execution of the real resolver source on lists of {L} citation objects with symbolic kinds and attributes; on every path: {titles[pid]} — as z3 validity queries against an independent reference model over the same symbolic attributes; counter-models are rebuilt as real citation objects and replayed.",
+        explanation=f"Path-exhaustive symbolic execution of the real resolver source on lists of {L} citation objects (plus the 4-citation lists named under bounds) with symbolic kinds and attributes; on every path: {titles[pid]} — as z3 validity queries against an independent reference model over the same symbolic attributes; counter-models are rebuilt as real citation objects and replayed.",
         technique="symbolic execution of the Python source (AST interpreter) + z3 validity queries per path against a reference model; bounded list length",
     )
 
